@@ -293,6 +293,8 @@ class VF:
 
     # ------------------------------------------------------------------ entry
     def eval_fn(self, body, args=None, self_sym=None):
+        from .facts import type_head as _th
+        self.root_self_head = _th(body.get('self_ty') or '') if body.get('self_ty') else None
         """Evaluate a top-level body with symbolic parameters.  Returns the return value."""
         frame = self.new_frame()
         saved = self.frame
@@ -740,11 +742,63 @@ class VF:
         items = []
         for f in fields:
             items.append(T.app('f:' + f['name'], self.to_term(vals[f['idx']])))
-        if 'base' in n and isinstance(n['base'], dict):
-            items.append(T.app('base', self.to_term(self.ev(n['base']))))
         v = n['variant']
         tag = name if v == name.split('::')[-1] else name + '::' + v
+        if 'base' in n and isinstance(n['base'], dict):
+            # struct update `S { f: v, ..b }`: b with f replaced -- the same value as assigning the field of a moved b
+            out = self.to_term(self.ev(n['base']))
+            for f in fields:
+                out = with_set(out, f['name'], self.to_term(vals[f['idx']]))
+            return out
+        # a struct rebuilt from another value of the SAME type, some fields copied (`S { a: x.a, b: new }`) is that value with the
+        # other fields replaced.  The copied fields are recognised on the THIR (field access on an expression of this ADT's type).
+        if tag == name and len(fields) >= 2:
+            srcs = {}
+            for f in fields:
+                bnode = self.copied_field_base(f['e'], f['name'], name)
+                if bnode is not None:
+                    srcs[f['name']] = bnode
+            tv = {f['name']: self.to_term(vals[f['idx']]) for f in fields}
+            cands = set()
+            for fname in srcs:
+                t_ = tv[fname]
+                if T.is_app(t_, '.' + fname) and len(t_[2]) == 1:
+                    cands.add(t_[2][0])
+            # ... or on the terms when the copied value arrives through a helper's parameter: `.f(self)` with `self` the receiver of the
+            # function under evaluation and that receiver's type this very ADT
+            if not cands and getattr(self, 'root_self_head', None) == name:
+                me = T.sym('self')
+                for f in fields:
+                    if tv[f['name']] is field_term(me, f['name']):
+                        srcs[f['name']] = True
+                        cands.add(me)
+            if len(cands) == 1:
+                base_t = list(cands)[0]
+                copied = [fn_ for fn_ in srcs if tv[fn_] is field_term(base_t, fn_)]
+                if copied:
+                    out = base_t
+                    for f in fields:
+                        if f['name'] not in copied:
+                            out = with_set(out, f['name'], tv[f['name']])
+                    return out
         return T.app('adt:' + tag, *items)
+
+    def copied_field_base(self, e, fname, adt):
+        """`x.f` (possibly cloned / borrowed / copied) where x has the ADT type `adt`: returns the THIR node of x, else None"""
+        for _ in range(8):
+            if not isinstance(e, dict):
+                return None
+            k = e.get('k')
+            if k in ('Scope', 'Use', 'Borrow', 'Deref', 'Coerce') and isinstance(e.get('e'), dict):
+                e = e['e']
+                continue
+            if k == 'Call' and isinstance(e.get('fn'), dict) and callee_key(e['fn']) in ('std::clone::Clone::clone',) and e.get('args'):
+                e = e['args'][0]
+                continue
+            break
+        if isinstance(e, dict) and e.get('k') == 'Field' and e.get('name') == fname and strip_generics(e.get('adt', '')) == adt:
+            return e.get('e')
+        return None
 
     def ev_Closure(self, n):
         for u in n['upvars']:
